@@ -87,6 +87,8 @@ type fnEnc struct {
 	retSt    []*retPoint
 	retGoals [][]Term
 	curArgs  []Term
+	ghostTouched bool
+	alwaysCount int
 	curBindings map[string]SVal
 	orphanClauses []string
 	backGoals map[int][]*backEdgeGoals
@@ -400,6 +402,9 @@ func (e *fnEnc) structOf(t types.Type) *structInfo {
 	for i := 0; i < st.NumFields(); i++ {
 		f := st.Field(i)
 		fi := fieldInfo{name: f.Name(), typ: f.Type()}
+		if fi.name == "_" {
+			fi.name = fmt.Sprintf("_blank%d", i)
+		}
 		if _, isStruct := types.Unalias(f.Type()).Underlying().(*types.Struct); isStruct {
 			fi.embStruct = true
 		}
